@@ -83,3 +83,114 @@ fn keccak_finalize_pad_384() { check_pad::<48, 0>() }
 #[kani::stub(keccak_f, rec_kf)]
 #[kani::unwind(202)]
 fn keccak_finalize_pad_512() { check_pad::<64, 0>() }
+
+// ---- Keccak-f[1600] against FIPS 202 3.2 written as the standard writes it (5 x 5 lanes A[x][y], rho offsets from the
+// (t+1)(t+2)/2 walk, pi as A'[y][2x+3y] = A[x][y], round constants from the LFSR rc(t)); complete over all 2^1600 states.
+// The unbounded statement is the Verus contract of `keccak_f` (unit sha3); this harness gives a replayable witness.
+fn rc_bit(t: usize) -> u64 {
+    // FIPS 202 algorithm 5: rc(t) from the LFSR x^8 + x^6 + x^5 + x^4 + 1
+    let mut r: u16 = 1;
+    let mut i = 0;
+    while i < t % 255 {
+        r <<= 1;
+        if r & 0x100 != 0 {
+            r ^= 0x171;
+        }
+        i += 1;
+    }
+    (r & 1) as u64
+}
+fn fips_keccak_f(a: &mut [[u64; 5]; 5]) {
+    // a[x][y]
+    let mut rho = [[0u32; 5]; 5];
+    let (mut x, mut y) = (1usize, 0usize);
+    let mut t = 0;
+    while t < 24 {
+        rho[x][y] = (((t + 1) * (t + 2) / 2) % 64) as u32;
+        let nx = y;
+        let ny = (2 * x + 3 * y) % 5;
+        x = nx;
+        y = ny;
+        t += 1;
+    }
+    let mut ir = 0;
+    while ir < 24 {
+        // theta
+        let mut c = [0u64; 5];
+        let mut x = 0;
+        while x < 5 {
+            c[x] = a[x][0] ^ a[x][1] ^ a[x][2] ^ a[x][3] ^ a[x][4];
+            x += 1;
+        }
+        let mut x = 0;
+        while x < 5 {
+            let d = c[(x + 4) % 5] ^ c[(x + 1) % 5].rotate_left(1);
+            let mut y = 0;
+            while y < 5 {
+                a[x][y] ^= d;
+                y += 1;
+            }
+            x += 1;
+        }
+        // rho and pi
+        let mut b = [[0u64; 5]; 5];
+        let mut x = 0;
+        while x < 5 {
+            let mut y = 0;
+            while y < 5 {
+                b[y][(2 * x + 3 * y) % 5] = a[x][y].rotate_left(rho[x][y]);
+                y += 1;
+            }
+            x += 1;
+        }
+        // chi
+        let mut x = 0;
+        while x < 5 {
+            let mut y = 0;
+            while y < 5 {
+                a[x][y] = b[x][y] ^ (!b[(x + 1) % 5][y] & b[(x + 2) % 5][y]);
+                y += 1;
+            }
+            x += 1;
+        }
+        // iota
+        let mut rc = 0u64;
+        let mut j = 0;
+        while j <= 6 {
+            rc |= rc_bit(j + 7 * ir) << ((1usize << j) - 1);
+            j += 1;
+        }
+        a[0][0] ^= rc;
+        ir += 1;
+    }
+}
+// @harness props=C01 kind=full tier=thorough timeout=3000
+#[kani::proof]
+#[kani::unwind(256)]
+fn keccak_f_matches_fips202() {
+    let st0: [u8; B] = kani::any();
+    let mut st = st0;
+    keccak_f(&mut st);
+    let mut a = [[0u64; 5]; 5];
+    let mut y = 0;
+    while y < 5 {
+        let mut x = 0;
+        while x < 5 {
+            let mut w = 0u64;
+            let mut j = 0;
+            while j < 8 {
+                w |= (st0[8 * (5 * y + x) + j] as u64) << (8 * j);
+                j += 1;
+            }
+            a[x][y] = w;
+            x += 1;
+        }
+        y += 1;
+    }
+    fips_keccak_f(&mut a);
+    let k: usize = kani::any();
+    kani::assume(k < 200);
+    let lane = k / 8;
+    assert!(st[k] == (a[lane % 5][lane / 5] >> (8 * (k % 8))) as u8, "state byte after Keccak-f");
+    kani::cover!(true);
+}
